@@ -127,6 +127,27 @@ func gen(thorough bool, emit func(tcase)) {
 			emit(intCase("int/"+b.pfx[0][1:2]+"-base-boundary", b.pfx[0]+w, v))
 		}
 	}
+	// a minus sign in front of a decimal spelling with leading zeros negates the same decimal value
+	for _, sp := range []string{"010", "0755", "0_10", "007", "0017", "00", "0_0", "0100", "08", "0777777"} {
+		v, _ := new(big.Int).SetString(strip(sp), 10)
+		emit(intCase("int/negated-leading-zeros", "-"+sp, new(big.Int).Neg(v)))
+		emit(intCase("int/negated-leading-zeros", "- "+sp, new(big.Int).Neg(v)))
+	}
+	// floats / exponent floats with repeated separators have the value of the digits alone
+	for _, sp := range [][2]string{{"1__2.5_5E-1", "12.55E-1"}, {"6__1.7e-3", "61.7e-3"}, {"1__0.2__5", "10.25"}, {"9__9.9e2", "99.9e2"}, {"1___0.0e0", "10.0"}} {
+		f, _ := strconv.ParseFloat(sp[1], 64)
+		emit(tcase{Class: "float/repeated-separators", Src: sp[0], Kind: "float", Float: f})
+	}
+	emit(tcase{Class: "float/repeated-separators-overflow", Src: "1__0.0e999", Kind: "reject", Risky: true})
+	// long literals are one token with all their characters (lengths around 4 KiB and beyond)
+	for _, n := range []int{4094, 4095, 4096, 4097, 5000, 9000, 20000} {
+		xs := strings.Repeat("xy", n/2) + strings.Repeat("z", n%2)
+		emit(intCase("str/long-literal", "\""+xs+"\".len", big.NewInt(int64(n))))
+		emit(intCase("str/long-raw-literal", "`"+xs+"`.len", big.NewInt(int64(n))))
+		emit(intCase("str/long-interpolated-literal", "\""+xs+"#{1}"+xs+"\".len", big.NewInt(int64(2*n+1))))
+		emit(intCase("int/long-leading-zeros", strings.Repeat("0", n)+"7", big.NewInt(7)))
+		emit(intCase("ident/long-name", "{v"+xs+": 3}.v"+xs, big.NewInt(3)))
+	}
 	// C. exponent ints
 	// incl. mantissas of 16..18 digits that no float64 holds exactly
 	for _, m := range []string{"0", "1", "5", "12", "100", "123", "1_0", "9", "92", "922337203685477580", "9223372036854775807", "9007199254740993", "1234567890123457", "900719925474099301", "72057594037927937", "4611686018427387905"} {
